@@ -26,6 +26,68 @@ fn exec_by_prop(prop: &str, sc: &tasim::scenario::Scenario) -> Option<tasim::sce
     }
 }
 
+/// the same harness built with `--profile shipped` (no debug assertions, wrapping integer arithmetic)
+fn shipped_bin() -> PathBuf {
+    if let Ok(p) = std::env::var("VERIF_SHIPPED_BIN") {
+        return PathBuf::from(p);
+    }
+    let exe = std::env::current_exe().unwrap_or_default();
+    let p = exe.parent().and_then(|d| d.parent()).map(|t| t.join("shipped").join("tasim")).unwrap_or_default();
+    if !p.exists() {
+        eprintln!("harness error: {} is missing (build it with `cargo build --profile shipped --offline` in /verif/sim; /verif/check does)", p.display());
+        std::process::exit(2);
+    }
+    p
+}
+
+/// Reduced pass of the same check in the build configuration users ship. Code that exists only under
+/// `debug_assert!` / `cfg(debug_assertions)` / overflow checks differs between the two builds, and the property
+/// must hold in both. Fixed corpora in full, a quarter of the seeded runs, no sub-process stages.
+fn shipped_pass(prop: &str, tier: &str) -> Result<serde_json::Value, i32> {
+    use serde_json::json;
+    if report::profile() == "shipped" || std::env::var("VERIF_NO_SHIPPED").is_ok() {
+        return Ok(json!({"status": "skipped"}));
+    }
+    let scale = std::env::var("VERIF_SCALE").ok().and_then(|s| s.parse::<f64>().ok()).unwrap_or(1.0) * 0.25;
+    let t0 = std::time::Instant::now();
+    let out = std::process::Command::new(shipped_bin())
+        .args([prop, tier])
+        .env("VERIF_SHIPPED", "1")
+        .env("VERIF_NO_SHIPPED", "1")
+        .env("VERIF_FAST", "1")
+        .env("VERIF_SCALE", format!("{}", scale))
+        .stderr(std::process::Stdio::inherit())
+        .output()
+        .map_err(|e| {
+            eprintln!("harness error: cannot start the shipped-configuration pass: {}", e);
+            2
+        })?;
+    let text = String::from_utf8_lossy(&out.stdout);
+    let (mut digest, mut summary) = (String::new(), String::new());
+    for l in text.lines() {
+        if l.starts_with("VIOLATION ") || l.starts_with("KNOWN-FINDING") {
+            println!("{}", l);
+        } else if let Some(r) = l.strip_prefix("DIGEST ") {
+            digest = r.to_string();
+            println!("DIGEST-SHIPPED {}", r);
+        } else {
+            if l.contains(" Quick: ") || l.contains(" Thorough: ") {
+                summary = l.to_string();
+            }
+            println!("[shipped] {}", l);
+        }
+    }
+    match out.status.code() {
+        Some(0) => Ok(json!({"status": "held", "build": "profile shipped: opt-level 2, debug-assertions off, overflow-checks off", "scale_of_seeded_runs": scale,
+            "sub_process_stages": "skipped", "summary": summary, "digest": digest, "wall_s": t0.elapsed().as_secs_f64()})),
+        Some(1) => Err(1),
+        _ => {
+            eprintln!("harness error: the shipped-configuration pass ended with {:?}", out.status);
+            Err(2)
+        }
+    }
+}
+
 fn main() {
     let args: Vec<String> = std::env::args().collect();
     if args.len() < 3 {
@@ -59,6 +121,11 @@ fn main() {
             eprintln!("harness error: cannot parse {}: {}", args[2], e);
             std::process::exit(2)
         });
+        if rf.profile == "shipped" && report::profile() != "shipped" {
+            // found by the pass in the shipped build configuration: re-execute under that build
+            let code = std::process::Command::new(shipped_bin()).args(["replay", &args[2]]).status().map(|s| s.code().unwrap_or(2)).unwrap_or(2);
+            std::process::exit(code);
+        }
         let _ = report::CTX.set(Ctx { prop: rf.property.clone(), tier: "quick".into(), seed: rf.seed, jobs, verif: verif.clone(), known: vec![], dry: true });
         // a recorded hang is replayed under a watchdog
         if rf.class.ends_with("/hang") {
@@ -122,6 +189,14 @@ fn main() {
     let known = report::load_known(&verif);
     let _ = report::CTX.set(Ctx { prop: args[1].clone(), tier: args[2].clone(), seed, jobs, verif, known, dry });
     println!("tasim property={} tier={} VERIF_SEED={} jobs={}", args[1], args[2], seed, jobs);
+    if args[1] != "C05-child" {
+        match shipped_pass(&args[1], &args[2]) {
+            Ok(j) => {
+                let _ = report::SHIPPED.set(j);
+            }
+            Err(code) => std::process::exit(code),
+        }
+    }
     let code = match args[1].as_str() {
         "C04" => tasim::c04::run(tier),
         "C05" => tasim::c05::run(tier),
